@@ -1258,3 +1258,56 @@ brk("B96", "format: check() result used without handler",
             validator.format_checker.check(instance, format)
         except FormatError as error:
             yield ValidationError(error.message, cause=error.cause)''', '''        validator.format_checker.check(instance, format)''')], {"C03": "R3.1|", "C12": "R12.2|"})
+
+
+# --------------------------------------------------------------------------- C09
+brk("B25a", "multipleOf: failed = True in the overflow handler",
+    [(KV, '''            failed = (Fraction(instance) / Fraction(dB)).denominator != 1
+    else:
+        try:''', '''            failed = True
+    else:
+        try:''')], {"C09": "R9.4|"})
+
+brk("B25b", "multipleOf: integer path without the overflow fallback (pre-fix shape)",
+    [(KV, '''        try:
+            failed = instance % dB
+        except OverflowError:
+            # a float ``instance`` and an integer ``dB`` too large to be
+            # converted to a float: same exact fallback as above
+            failed = (Fraction(instance) / Fraction(dB)).denominator != 1''', '''        failed = instance % dB''')], {"C09": "R9.1|", "C03": "R3.1|"})
+
+brk("B25c", "minimum compares through float()",
+    [(KV, '''    if instance < minimum:
+        yield ValidationError(
+            "%r is less than the minimum of %r" % (instance, minimum)
+        )''', '''    if float(instance) < float(minimum):
+        yield ValidationError(
+            "%r is less than the minimum of %r" % (instance, minimum)
+        )''')], {"C09": "R9.", "C01": "R1.3|"})
+
+brk("B25d", "exclusiveMaximum decides by the sign of a difference",
+    [(KV, '''    if instance >= maximum:
+        yield ValidationError(
+            "%r is greater than or equal to the maximum of %r" % (''', '''    if instance - maximum >= 0:
+        yield ValidationError(
+            "%r is greater than or equal to the maximum of %r" % (''')], {"C09": "R9.2|"})
+
+brk("B25e", "multipleOf: every divisor goes through the float quotient",
+    [(KV, '''    if isinstance(dB, float):
+        try:
+            quotient = instance / dB''', '''    if True:
+        try:
+            quotient = instance / dB''')], {"C09": "R9.3|"})
+
+brk("B25f", "multipleOf: integer path uses float remainder",
+    [(KV, '''            failed = instance % dB
+        except OverflowError:''', '''            failed = float(instance) % dB
+        except OverflowError:''')], {"C09": "R9."})
+
+brk("B25g", "draft7.json: multipleOf may be 0",
+    [("schemas/draft7.json", '''        "multipleOf": {
+            "type": "number",
+            "exclusiveMinimum": 0
+        },''', '''        "multipleOf": {
+            "type": "number"
+        },''')], {"C09": "R9.1|", "C03": "R3.1|"})
